@@ -257,6 +257,50 @@ def run_c04(run: core.Run, n: int) -> None:
                 run.fail(core.Failure(f"in|{name}|{tc[i]}", f"{tc[i]} in [{name}] = {got[i]}, packaging says {want[i]}; result {res!r}",
                                       {"op": "tree", "tree": tree_, "v": str(tc[i])}))
                 break
+    # deterministic layer around the shortening heuristics (seed C04k: `contains()` goes through `str()`, so a `~=` / `==X.*` /
+    # `!=X.*` detection that looks at too few segments of a LONGER upper bound changes membership -- `>=1.2.3,<1.3.0.1` printed
+    # `~=1.2.3` loses 1.3): computed ranges [L, U) with U one series above L at every position and every short tail, zero and
+    # not, and their complements, judged on all the bounds involved
+    Ls = [(1, 2), (1, 2, 3), (1, 2, 0), (3, 8), (1, 2, 3, 4), (2, 0), (0, 9)]
+    tails = [(), (0,), (0, 0), (0, 1), (1,), (0, 0, 1), (0, 2, 0)]
+    dot = lambda t: ".".join(map(str, t))  # noqa: E731
+    fam = []
+    for L in Ls:
+        for i in range(len(L)):
+            for tl_ in tails:
+                fam.append((dot(L), dot(L[:i] + (L[i] + 1,) + tl_)))
+    cand_texts = sorted({x for pair in fam for x in pair} | {"0", "1", "1.2.5", "1.3.5", "2.5", "9"})
+    fc = [Version(x) for x in cand_texts]
+    n_fam = 0
+    for Lt, Ut in fam:
+        lo, hi = parse_version_specifier(">=" + Lt), parse_version_specifier("<" + Ut)
+        tlo = [SpecifierSet(">=" + Lt).contains(v) for v in fc]
+        thi = [SpecifierSet("<" + Ut).contains(v) for v in fc]
+        forms = [(f"(>={Lt}) & (<{Ut})", lambda: lo & hi, [x and y for x, y in zip(tlo, thi)], ("and", ("leaf", ">=" + Lt), ("leaf", "<" + Ut))),
+                 (f"~((<{Lt}) | (>={Ut}))", lambda: ~(parse_version_specifier("<" + Lt) | parse_version_specifier(">=" + Ut)),
+                  [x and y for x, y in zip(tlo, thi)], ("not", ("or", ("leaf", "<" + Lt), ("leaf", ">=" + Ut)))),
+                 (f"(<{Lt}) | (>={Ut})", lambda: parse_version_specifier("<" + Lt) | parse_version_specifier(">=" + Ut),
+                  [not (x and y) for x, y in zip(tlo, thi)], ("or", ("leaf", "<" + Lt), ("leaf", ">=" + Ut)))]
+        for name, f, want, tree_ in forms:
+            n_fam += 1
+            try:
+                res = f()
+                got = [v in res for v in fc]
+                got2 = [res.contains(v) for v in fc]
+            except Exception as e:  # noqa: BLE001
+                run.fail(core.Failure("eval|" + name, f"{name} raised {type(e).__name__}", {"op": "tree", "tree": tree_}))
+                continue
+            n_oracle += 2 * len(fc)
+            for g in (got, got2):
+                if g != want:
+                    i = [x != w for x, w in zip(g, want)].index(True)
+                    fl = core.Failure(f"in|{name}|{fc[i]}", f"{fc[i]} in [{name}] = {g[i]}, packaging says {want[i]}; result {res!r}",
+                                      {"op": "tree", "tree": tree_, "v": str(fc[i])})
+                    if compat_postrelease_family(res):
+                        fl.family = "compat-render-postrelease-max"
+                    run.fail(fl)
+                    break
+    run.extra["shortening_family_forms"] = n_fam
     # `===` leaves: same equation or ValueError
     for _ in range(max(50, n // 10)):
         arb = "===" + rng.choice(pool)
